@@ -205,7 +205,7 @@ PROFILE = {
     'weights': {'open': 3, 'poll': 4, 'post': 1, 'probe_step': 10, 'upg_connect': 1, 'ws_send': 2,
                 'ws_close': 2, 'ws_fail': 1, 'pong': 1, 'app_send': 5, 'advance': 2},
     'max_sessions': 3,
-    'packet_kinds': [('msg', 4), ('pong', 1)],
+    'packet_kinds': [('msg', 4), ('pong', 1), ('upgrade', 1)],
     'post_modes': [('pkts', 1)],
     'declared_delta': [0],
     'config': {'http_compression': st.sampled_from([True, False]),
